@@ -96,6 +96,19 @@ CHECKS["C12"] = dict(
     technique="TLC model checking of seek and binary-search transcriptions + TLC trace validation against an integer-arithmetic contract",
 )
 
+CHECKS["C15"] = dict(
+    category="model_checking",
+    text="Two-run relational check decided by TLC: every generated stream (all types, omission toggled at arbitrary points, gaps in a quarter of the programs) "
+         "is written twice by the real library - with its jls_wr_fsr_omit_data calls and without - and the trace must satisfy: both lengths equal the "
+         "contract's, SUMMARY entries at every level (lifted from the bytes of both files, bit-exact tokens) are equal, the blocks whose level-1 index "
+         "entry is 0 are exactly those the documented one-block delay prescribes (never block 0), stored blocks read back exactly and omitted ones with the "
+         "right count; for u1/u4/u8/i4/i8, streams built from constant (0, all-ones, other) and non-constant blocks must read back bit-exactly at "
+         "unaligned windows. JlsApiGen.tla model-checks omission in the contract (first block never released, length/sources independent of omission).",
+    design_ref="DESIGN.md section 6 C15, section 12",
+    note="Trusted: as C01 plus tools/lifter.py for the SUMMARY/INDEX payloads. Known finding C01-K1 (omitted final partial block shortens the length) is reported, not failed.",
+    technique="TLC trace validation of paired executions (relational property) against a TLA+ contract; TLC model checking of the contract",
+)
+
 NOT_YET = {}
 
 
